@@ -9,7 +9,7 @@ US = [(r"Iterator>::any::<", 3, "loops?"), (r"__ordset::cmp::<", 5, "loops?")]
 
 QUICK = ["c01_fd_0000", "c01_fd_0001", "c01_fd_1000", "c01_fd_1010", "c01_fd_0110", "c01_fd_0101", "c01_fd_res_so_gpconst_light",
          "c01_fd_res_kind_p_sconst", "c01_ld_1001", "c01_ld_res_gnot",
-         "c01_fg_000", "c01_fg_001", "c01_fg_010", "c01_fg_100", "c01_fg_011", "c01_fg_res_not_o_sconst",
+         "c01_fg_000", "c01_fg_001", "c01_fg_010", "c01_fg_100", "c01_fg_011", "c01_fg_res_not_o_sconst", "c01_fg_res_two_p_sconst", "c01_lg_res_two_p_sconst", "c01_ld_res_gkind",
          "c01_lg_100", "c01_lg_res_not_s", "c01_fd_index_full"]
 
 ALL_FD = ["c01_fd_%d%d%d%d" % (a, b, c, d) for a in (0, 1) for b in (0, 1) for c in (0, 1) for d in (0, 1)]
@@ -19,7 +19,7 @@ ALL_LG = [x.replace("_fg_", "_lg_") for x in ALL_FG]
 RES = ["c01_fd_res_two_s", "c01_fd_res_not_o_gconst", "c01_fd_res_kind_p_sconst", "c01_fd_res_gtwo", "c01_fd_res_gnot_oconst",
        "c01_fd_res_gkind_pconst", "c01_fd_opt_s_gopt", "c01_fd_res_so_gpconst", "c01_fd_res_so_gpconst_light", "c01_fd_res_po_gsconst", "c01_fd_res_sp_oconst",
        "c01_ld_res_two_o_gconst", "c01_ld_res_not_p_sgconst", "c01_ld_res_gnot", "c01_ld_res_kind_s", "c01_fd_termgn",
-       "c01_fg_res_two_p", "c01_fg_res_not_o_sconst", "c01_fg_res_kind_s_oconst", "c01_lg_res_not_s", "c01_lg_res_kind_o_sconst",
+       "c01_fg_res_two_p", "c01_fg_res_two_p_sconst", "c01_lg_res_two_p_sconst", "c01_ld_res_gkind", "c01_fg_res_not_o_sconst", "c01_fg_res_kind_s_oconst", "c01_lg_res_not_s", "c01_lg_res_kind_o_sconst",
        "c01_fd_unknown_constant", "c01_fd_index_full"]
 
 
@@ -50,7 +50,22 @@ def spec(tier, cap_k=2, names=None):
     )
 
 
+def spec_matchers(tier):
+    HA = os.path.join(VERIF, "harness", "api")
+    hs = [Harness(n, unwind=5, timeout=300, mem_gb=8, note="every shipped matcher type with symbolic content against its reference predicate and the constant() contract")
+          for n in ("c01_term_matchers", "c01_graph_name_matchers")]
+    return kprop.KSpec(
+        package="sophia_api", crate_dir="api",
+        harness_files={"api": [os.path.join(HA, "vt.rs"), os.path.join(HA, "c01_matchers.rs")]},
+        harnesses=hs, jobs=2,
+        encoded=["TermMatcher / GraphNameMatcher impls: Any, Option<T>, [T;N], &[T], Not, TermKind, MatcherRef, Option<Option<T>>, [GraphName<T>;N], &[GraphName<T>], Option<TermKind>, TermMatcherGn"],
+        bounds=["symbolic terms over 8 codes (IRIs and blank nodes), symbolic graph names incl. the default graph"],
+        outside=["closure matchers, datatype/language-tag matchers, quoted-triple tuple matchers"],
+    )
+
+
 def run(ctx):
+    kprop.run(ctx, spec_matchers(ctx.tier))
     kprop.run(ctx, spec(ctx.tier))
     if ctx.tier == "thorough":
         # deeper histories on the graph stores (3 operations, capacity 3)
@@ -58,4 +73,7 @@ def run(ctx):
 
 
 def replay(ctx, path):
-    return kprop.replay(ctx, spec(ctx.tier), path)
+    import json
+    w = json.load(open(path))
+    sp = spec_matchers(ctx.tier) if "c01_matchers" in w.get("harness", "") else spec(ctx.tier)
+    return kprop.replay(ctx, sp, path)
